@@ -146,7 +146,7 @@ pub fn eds_op(op: &str, a: &[&str]) -> R {
             let vk = vk_or_err(&hx::<32>(a[0])?)?;
             ok_hex(vk.to_montgomery().as_bytes())
         }
-        "batch" => {
+        "batch" | "batch_transcript" => {
             arity(a, 3)?;
             let msgs: Vec<Vec<u8>> = list(a[0])?
                 .into_iter()
@@ -162,7 +162,38 @@ pub fn eds_op(op: &str, a: &[&str]) -> R {
                 .collect::<Result<_, _>>()?;
             let vks: Vec<VerifyingKey> = vkbs.iter().map(vk_or_err).collect::<Result<_, _>>()?;
             let mrefs: Vec<&[u8]> = msgs.iter().map(|m| m.as_slice()).collect();
-            unit(ed25519_dalek::verify_batch(&mrefs, &sigs, &vks))
+            if op == "batch" {
+                return unit(ed25519_dalek::verify_batch(&mrefs, &sigs, &vks));
+            }
+            // `eds.batch_transcript`: the sequence of operations verify_batch
+            // performs on its merlin transcript (vendored merlin, log only).
+            use std::sync::atomic::Ordering;
+            let _ = merlin::take_log();
+            merlin::LOG_ENABLED.store(true, Ordering::SeqCst);
+            let r = std::panic::catch_unwind(std::panic::AssertUnwindSafe(|| {
+                ed25519_dalek::verify_batch(&mrefs, &sigs, &vks)
+            }));
+            merlin::LOG_ENABLED.store(false, Ordering::SeqCst);
+            let log = merlin::take_log();
+            let r = match r {
+                Ok(r) => r,
+                Err(e) => std::panic::resume_unwind(e),
+            };
+            let mut o = String::new();
+            push_bool(&mut o, r.is_ok());
+            o.push(' ');
+            if log.is_empty() {
+                o.push('-');
+            }
+            for (i, (label, message)) in log.iter().enumerate() {
+                if i > 0 {
+                    o.push(',');
+                }
+                hex_into(&mut o, label);
+                o.push(':');
+                hex_into(&mut o, message);
+            }
+            Ok(o)
         }
         _ => Err(BADREQ),
     }
